@@ -453,8 +453,9 @@ fn abi_to_signature(abi: &InstrAbi, abi_span: Span, ctx: &mut CompilerContext<'_
                 | ArgEncoding::JumpTime
                 => Info { ty: ScalarType::Int, default: None, reg_ok: false, ty_color: None },
 
+                // padding bytes are written by the encoder itself; they are not arguments of the call
                 | ArgEncoding::Padding { .. }
-                => Info { ty: ScalarType::Int, default: Some(sp!(0.into())), reg_ok: false, ty_color: None },
+                => return None,
 
                 | ArgEncoding::Float { .. }
                 => Info { ty: ScalarType::Float, default: None, reg_ok: true, ty_color: None },
